@@ -2,6 +2,7 @@ package eng
 
 import (
 	"fmt"
+	"net/http"
 	"sort"
 	"strconv"
 	"strings"
@@ -297,7 +298,7 @@ func corsRequests(cfg corsCfg, r *ref.R, random bool) []corsReq {
 	for _, m := range []string{"GET", "HEAD", "POST", "OPTIONS", "PUT", "BOGUS"} {
 		for _, pc := range []string{"live", "notfound", "star"} {
 			for _, o := range originClasses {
-				for _, acrm := range []string{"", "GET", "POST", "DELETE", "get"} {
+				for _, acrm := range []string{"", "GET", "POST", "DELETE", "get", "GE", "GET, HEAD", "PROPFIND"} {
 					for _, hn := range []string{"absent", "as-configured", "lower-case", "each-upper-case", "mixed-spaces", "one-disallowed", "prefix-of-allowed", "extension-of-allowed", "empty-element"} {
 						out = append(out, corsReq{Method: m, PathClass: pc, HasOrigin: o.has, Origin: o.val, ACRM: acrm, ACRH: acrhClasses[hn],
 							class: fmt.Sprintf("%s %s origin=%s acrm=%q acrh=%s", m, pc, o.name, acrm, hn)})
@@ -324,11 +325,14 @@ func runCORS(c *Ctx, prop string) {
 		cfg.class += fmt.Sprintf(" allowH=%v", cfg.AllowH)
 	}
 	env := mon.NewEnv()
-	r := env.NewRouter("r", mux.WithCORS(cfg.Origins, cfg.AllowH, cfg.Exposed, cfg.MaxAge, cfg.Creds))
-	r.Handle("/c/{id}", env.NewHnd(mon.KRoute, "/c/{id}"), nil, "GET", "POST")
+	r := corsRouter(c, env, cfg, c.Case/len(cfgs))
 	c.Class("config_class_enumerated")
-	for _, q := range corsRequests(cfg, c.R, random) {
+	for qi, q := range corsRequests(cfg, c.R, random) {
 		path := map[string]string{"live": "/c/7", "notfound": "/nothing", "star": "*"}[q.PathClass]
+		if q.PathClass == "live" && qi%5 == 4 {
+			path = "/boom/7" // same route shape, the handler panics and is recovered
+			c.Class("request_to_panicking_route")
+		}
 		hdr := map[string]string{}
 		if q.HasOrigin {
 			hdr["Origin"] = q.Origin
@@ -369,6 +373,32 @@ func runCORS(c *Ctx, prop string) {
 		}
 	}
 	corsHistory(c, prop, cfg, r, env)
+}
+
+// corsRouter builds the router under test. pass selects the container: a stand-alone router, or a router made by
+// Group.New whose own WithCORS option has to override a different CORS option given to the group. Every router
+// has a recovery option and a second route whose handler panics: the recovered response is a response of a
+// live route and served method like any other.
+func corsRouter(c *Ctx, env *mon.Env, cfg corsCfg, pass int) *mux.Router[*mon.Hnd] {
+	own := mux.WithCORS(cfg.Origins, cfg.AllowH, cfg.Exposed, cfg.MaxAge, cfg.Creds)
+	rec := mux.WithRecovery(func(w http.ResponseWriter, v any) { w.WriteHeader(500) })
+	var r *mux.Router[*mon.Hnd]
+	if pass%2 == 1 {
+		other := mux.WithCORS([]string{"https://group.example"}, []string{"X-Group"}, []string{"X-Group-Exposed"}, 7, true)
+		if len(cfg.Origins) > 0 && !hasAny(cfg.Origins) && c.R.Bool() {
+			other = mux.WithAllowedCORS(99)
+		}
+		g := env.NewGroup(other, rec)
+		r = g.New("r", nil, own)
+		c.Class("router_made_by_group_with_other_cors_option")
+	} else {
+		r = env.NewRouter("r", own, rec)
+	}
+	r.Handle("/c/{id}", env.NewHnd(mon.KRoute, "/c/{id}"), nil, "GET", "POST")
+	boom := env.NewHnd(mon.KRoute, "/boom/{id}")
+	boom.Panic = &mon.PanicSpec{Value: "handler panics"}
+	r.Handle("/boom/{id}", boom, nil, "GET", "POST")
+	return r
 }
 
 // corsHistory: the route's method set changes (methods added, removed by name - also absent ones and
